@@ -11,8 +11,6 @@ B2  every case TLC emits (configuration + per-channel inputs + the spec's expect
 B3  every ROADM crossing recorded inside the real gnpy.topology.request.propagate on the shipped networks (and the
     B2 crossings themselves, re-projected from the element) is judged by Trace_LineElements.
 """
-import copy
-import json
 import random
 import traceback
 
@@ -54,14 +52,7 @@ def policy_value(kind, v_udb):
     return x if kind == 'pch' else 10 ** (x / 10)
 
 
-_EQPT = None
-
-
-def base_eqpt():
-    global _EQPT
-    if _EQPT is None:
-        _EQPT = json.loads((EX / 'eqpt_config.json').read_text())
-    return copy.deepcopy(_EQPT)
+base_eqpt = L.base_eqpt
 
 
 def impairments(maxloss_by_type, minimal=False):
@@ -74,25 +65,7 @@ def impairments(maxloss_by_type, minimal=False):
             for i, (t, ml) in enumerate(maxloss_by_type.items())]
 
 
-def line_topology(roadm_b_params):
-    """trx/roadm A - B - C, explicit (auto-designed) amplifiers so that degree uids are known before design"""
-    els, cx = [], []
-    for s in 'ABC':
-        els.append({'uid': f'trx {s}', 'type': 'Transceiver'})
-        r = {'uid': f'roadm {s}', 'type': 'Roadm', 'type_variety': 'verif'}
-        if s == 'B':
-            r['params'] = roadm_b_params
-        els.append(r)
-        cx += [{'from_node': f'trx {s}', 'to_node': f'roadm {s}'}, {'from_node': f'roadm {s}', 'to_node': f'trx {s}'}]
-    for a, b in (('A', 'B'), ('B', 'C'), ('C', 'B'), ('B', 'A')):
-        els += [{'uid': f'booster {a}{b}', 'type': 'Edfa'}, {'uid': f'preamp {a}{b}', 'type': 'Edfa'},
-                {'uid': f'fiber {a}{b}', 'type': 'Fiber', 'type_variety': 'SSMF',
-                 'params': {'length': 60, 'length_units': 'km', 'loss_coef': 0.2, 'con_in': 0.5, 'con_out': 0.5}}]
-        cx += [{'from_node': f'roadm {a}', 'to_node': f'booster {a}{b}'},
-               {'from_node': f'booster {a}{b}', 'to_node': f'fiber {a}{b}'},
-               {'from_node': f'fiber {a}{b}', 'to_node': f'preamp {a}{b}'},
-               {'from_node': f'preamp {a}{b}', 'to_node': f'roadm {b}'}]
-    return {'elements': els, 'connections': cx}
+line_topology = L.line_topology
 
 
 DEGREES = {'add': ('trx B', 'booster BC'), 'drop': ('preamp AB', 'trx B'), 'express': ('preamp AB', 'booster BC')}
@@ -268,7 +241,7 @@ def replay_loads(cases, chk):
 # ----------------------------------------------------------------------------------------------------- B3 traces
 def shipped_roadm_traces(chk, rng):
     """ROADM crossings inside the real propagate() on the shipped networks (+ PSD / PSW libraries, mixed spectra)"""
-    jobs = [(n, t, e, None, EX, s) for (n, t, e, _, s) in L.SHIPPED if chk.tier == 'thorough' or n != 'coronet']
+    jobs = [(n, t, e, None, EX, s) for (n, t, e, _, s) in L.SHIPPED]
     jobs += [('testTopology-psd-mixed', 'testTopology_expected.json', 'eqpt_config_psd.json', 'initial_spectrum2.json', TD, None),
              ('testTopology-psw-mixed', 'testTopology_expected.json', 'eqpt_config_psw.json', 'initial_spectrum1.json', TD, None),
              ('meshV2-pch-mixed', 'meshTopologyExampleV2.json', 'eqpt_config.json', 'initial_spectrum2.json', EX, None)]
@@ -280,7 +253,8 @@ def shipped_roadm_traces(chk, rng):
         L.set_sim(sim)
         try:
             eq, net, req, _ = L.load_designed(topo, eqpt, spectrum=spectrum, eqpt_dir=edir)
-            for pname, evs in L.record_paths(eq, req, L.some_paths(net, rng, npaths)):
+            few = 2 if (name == 'coronet' and chk.tier == 'quick') else npaths
+            for pname, evs in L.record_paths(eq, req, L.some_paths(net, rng, few)):
                 out = []
                 for ev in evs:
                     if ev['cls'] != 'Roadm':
@@ -319,6 +293,10 @@ def run(chk):
     r = tlc.run('MC_RoadmLaw', cfg_text=cfg_text(offsets), timeout=1800, tag='c06-mc')
     chk.add_mc(f'MC_RoadmLaw OffsetVecs={offsets}', r)
     chk.exhaustive = True
+    if chk.tier == 'thorough':
+        head = '\n'.join(ln for ln in cfg_text('MCOffsetVecsQuick').splitlines() if not ln.startswith(('INVARIANT', 'PROPERTY')))
+        L.require_witnesses(chk, 'MC_RoadmLaw', head, ['ProbeEqualised', 'ProbeBelow', 'ProbeMixed', 'ProbeRejected',
+                                                        'ProbeDegOtherKind'], 'c06-probe')
     # ---- B2 generation: crossings and configuration loading
     r2 = tlc.run('MC_RoadmLaw', cfg_text=cfg_text(offsets, emit='EmitCross'), timeout=1800, tag='c06-emit')
     chk.add_mc('emit crossings', r2)
@@ -388,7 +366,6 @@ def _mut_maxloss_after_compare():
 def _mut_two_policies_accepted():
     """an element carrying two node-level policies is accepted (first one wins)"""
     import gnpy.tools.json_io as J
-    import gnpy.core.parameters as P
     orig = J.merge_equalization
 
     def merge(params, extra_params):
